@@ -163,8 +163,8 @@ func ConvertToAssignments(stmt *gorm.Statement) (set clause.Set) {
 		switch stmt.ReflectValue.Kind() {
 		case reflect.Slice, reflect.Array:
 			if size := stmt.ReflectValue.Len(); size > 0 {
-				var isZero bool
-				for i := 0; i < size; i++ {
+				isZero := true
+				for i := 0; i < size && isZero; i++ {
 					for _, field := range stmt.Schema.PrimaryFields {
 						_, isZero = field.ValueOf(stmt.Context, stmt.ReflectValue.Index(i))
 						if !isZero {
